@@ -63,6 +63,10 @@ def _unate_table(rr, pol, op):
             v = int(any(lits))
         elif op == "maj":
             v = int(sum(lits) * 2 > len(lits))
+        elif op == "nc2":  # nested canalizing, dual form: l0 and (l1 or (l2 and ...))
+            v = lits[-1]
+            for j in range(k - 2, -1, -1):
+                v = (lits[j] & v) if (j % 2 == 0) else (lits[j] | v)
         else:  # nested canalizing: l0 or (l1 and (l2 or ...))
             v = lits[-1]
             for j in range(k - 2, -1, -1):
@@ -85,7 +89,7 @@ def motif_rich(draw, min_n=2, max_n=6):
         pol = [draw(st.sampled_from((1, 1, 0))) for _ in rr]
         if i in rr and draw(st.integers(0, 3)) > 0:
             pol[rr.index(i)] = 1
-        op = draw(st.sampled_from(("and", "or", "maj", "nc")))
+        op = draw(st.sampled_from(("and", "or", "maj", "nc", "nc2")))
         regs.append(rr)
         tabs.append(_unate_table(rr, pol, op))
     return {"names": default_names(n), "regs": regs, "tables": tabs}
@@ -250,6 +254,37 @@ def gated(draw, base, max_n):
     regs.append([g])
     tabs.append([0, 1])
     return {"names": default_names(n + 1), "regs": regs, "tables": tabs}
+
+
+@st.composite
+def switched(draw, max_n):
+    """a source variable S selects between two different motif-rich rule sets over the SAME variables:
+    f_i' = (S & a_i) | (!S & b_i).  The sibling trap spaces S=0 / S=1 then fix the same variables by different dynamics."""
+    m = draw(st.integers(2, max(2, max_n - 1)))
+    a = draw(motif_rich(min_n=m, max_n=m))
+    b = draw(motif_rich(min_n=m, max_n=m))
+    g = m
+    regs, tabs = [], []
+    for i in range(m):
+        ra, ta = a["regs"][i], a["tables"][i]
+        rb, tb = b["regs"][i], b["tables"][i]
+        new_r = sorted(set(ra) | set(rb)) + [g]
+        k = len(new_r)
+        nt = []
+        for idx in range(1 << k):
+            bits = dict(zip(new_r, _bits(idx, k)))
+            ia = 0
+            for r in ra:
+                ia = (ia << 1) | bits[r]
+            ib = 0
+            for r in rb:
+                ib = (ib << 1) | bits[r]
+            nt.append(ta[ia] if bits[g] else tb[ib])
+        regs.append(new_r)
+        tabs.append(nt)
+    regs.append([g])
+    tabs.append([0, 1])
+    return {"names": default_names(m + 1), "regs": regs, "tables": tabs}
 
 
 @st.composite
